@@ -102,4 +102,32 @@ LocalAll(L, M, c) ==
 
 Global == Valid(f, x) => GlobalOK(Pt(f, x)[1], Pt(f, x)[2])
 Local == Valid(f, x) => LocalAll(Pt(f, x)[1], Pt(f, x)[2], x % 4)
+
+(***************************************************************************)
+(* Spec mutants (non-vacuity of step M; TLC must REFUTE them):             *)
+(*   GlobalNoBand  the longitude clause of Global without its SameBand     *)
+(*                 premise: false, because a pair whose reports fall in    *)
+(*                 different bands decodes to a wrong longitude -- the     *)
+(*                 exception C04 grants is needed and the point families   *)
+(*                 reach it;                                               *)
+(*   LocalNoZone   Local for a reference 1.5 zones north of the position:  *)
+(*                 false, local decoding then returns another zone -- the  *)
+(*                 range premise of C05 is needed.                         *)
+(***************************************************************************)
+GlobalNoBand ==
+  Valid(f, x) =>
+    LET L == Pt(f, x)[1]
+        M == Pt(f, x)[2]
+        xz0 == XZ("air", 0, L, M)
+        xz1 == XZ("air", 1, L, M)
+    IN  \A i \in {0, 1} :
+          LET nl == NLat("air", i, L)
+          IN  LonErrTurn128(Max(nl - i, 1), M, GLonN(i, nl, xz0, xz1)) <= 64
+LocalNoZone ==
+  Valid(f, x) =>
+    LET L == Pt(f, x)[1]
+        kind == IF (x % 4) \div 2 = 0 THEN "air" ELSE "surf"
+        i == x % 2
+        Lref == L + 3 * HalfL(kind, i)
+    IN  Lref <= QUARTER => RLatN(kind, i, Lref, YZ(kind, i, L)) = LatN(kind, i, L)
 =============================================================================
